@@ -158,7 +158,7 @@ impl Spec {
 }
 
 pub fn catalogue(thorough: bool) -> Vec<Spec> {
-    let wraps: Vec<usize> = if thorough { (0..WRAPS.len()).collect() } else { vec![0, 13, 15, WRAPS.len() - 3, WRAPS.len() - 1] };
+    let wraps: Vec<usize> = if thorough { (0..WRAPS.len()).collect() } else { vec![0, 13, 15, WRAPS.len() - 3, WRAPS.len() - 2, WRAPS.len() - 1] };
     let kinds = [Kind::N, Kind::L, Kind::C];
     let mut out = vec![];
     for k0 in kinds {
@@ -2328,7 +2328,7 @@ pub fn run(ctx: &Ctx, replay: Option<&Value>) -> i32 {
         "bound",
         json!({
             "levels": 3, "definition_kinds": ["none", "label", "const"], "path_forms": FORMS,
-            "wrappers": if ctx.tier.is_thorough() || !c15 { WRAPS.to_vec() } else { vec!["none", "if0-else-untaken", "untaken-def-nearer", "expr-repeat", "macro-arg-same-name"] },
+            "wrappers": if ctx.tier.is_thorough() || !c15 { WRAPS.to_vec() } else { vec!["none", "if0-else-untaken", "untaken-def-nearer", "expr-repeat", "macro-named-a", "macro-arg-same-name"] },
             "orders": if c15 && !ctx.tier.is_thorough() { json!(["definitions-first"]) } else { json!(["definitions-first (all wrappers)", "uses-first (unwrapped use only)"]) },
             "imports": IMPORTS,
             "positions": if c15 { json!(["start", "middle", "end"]) } else { json!(["first char", "last char"]) },
